@@ -1,7 +1,7 @@
 From Coq Require Import Extraction ExtrOcamlBasic.
 From PV Require Import Lib.ExtractBase Lib.AmmoBytes Lib.AmmoDecimal Lib.AmmoLines Model.AmmoCommon
   Model.AmmoUri Model.AmmoUripost Model.AmmoRaw Model.AmmoJson Model.AmmoRobust Model.AmmoConfigInput
-  Model.AmmoJsonReject Model.AmmoVarSource Model.AmmoConfigValue.
+  Model.AmmoJsonReject Model.AmmoVarSource Model.AmmoConfigValue Model.AmmoHostileConfig.
 Extraction Language OCaml.
 Extraction "extracted/C13_model.ml" xb_types max_token cfg0 build cycle_take
   uri_decode render_uri uri_entries wf_uitem
@@ -12,4 +12,5 @@ Extraction "extracted/C13_model.ml" xb_types max_token cfg0 build cycle_take
   mp_reads grpc_decode decode_header header_set GET rand_int_range
   config_headers provider_new_headers header_entry_okb header_list_okb scenario_weights scenario_requests
   json_provider good_prefix entity_okb
-  csv_source rows_spec init_sources cast_int.
+  csv_source rows_spec init_sources cast_int
+  opt_accept scanner_setup scan_limit grpc_provider http_provider_opts read_description.
